@@ -189,6 +189,14 @@ pub fn malformed_case(rng: &mut Rng) -> Case {
             }
             family.push_str("@user-level");
         }
+        7 if !opts.check => {
+            // the .editorconfig carrier: a line that is not `key = value` makes the file malformed
+            let bad = rng.pick(&["[*]\nindent_size\n", "[*]\nindent_style = space\nindent_size =\n", "[*]\n= 3\n"]);
+            let d = rng.pick(&["", "sub", "lib"]);
+            let p = if d.is_empty() { format!("{CWD}/.editorconfig") } else { format!("{CWD}/{d}/.editorconfig") };
+            w.files.insert(p, bad.as_bytes().to_vec());
+            family = format!("carrier-malformed:editorconfig-invalid-line@{}", if d.is_empty() { "cwd" } else { "nested" });
+        }
         7..=8 => {
             let d = rng.pick(&["sub", "sub/deep", "lib"]);
             w.files.insert(format!("{CWD}/{d}/stylua.toml"), text.into_bytes());
